@@ -29,10 +29,13 @@ def run(tier, seed, pid="C02"):
     for k, (inst, byz) in enumerate([(1, "3"), (0, "0")] if not thorough else [(1, "3"), (0, "0"), (2, "1"), (3, "")]):
         gen += qc.tlc_gen_schedules(pid, seed + k, dict(N=4, Inst=inst, Byz=byz, CompareFail="", Inputs="InputsA",
                                                         MaxRound=3, MaxTimeouts=4, DupBudget=2, MaxByz=5, GenLen=70),
-                                    num=40 if thorough else 8, depth=80, limit=400 if thorough else 60)
+                                    num=40 if thorough else 20, depth=80, limit=400 if thorough else 60)
     vlib.conformance(o, qc.FAMILY, "QBFTTrace", qc.trace_cfg_of, "c02", gen, tag="tlcgen")
-    rnd = qc.random_schedules(seed, "c02", COMBOS_T if thorough else COMBOS_Q, 60 if thorough else 8,
-                              400 if thorough else 220, pbyz=14)
+    combos = COMBOS_T if thorough else COMBOS_Q
+    rnd = qc.random_schedules(seed, "c02", combos, 40 if thorough else 6, 400 if thorough else 220, pbyz=14)
+    # round-change heavy runs with a lagging member: justification rules J1/J2, F+1 jumps, DECIDED catch-up
+    rnd += qc.random_schedules(seed, "c02rc", combos, 40 if thorough else 6, 500 if thorough else 300, pbyz=18,
+                               ptimeout=12, plag=70, pdup=8)
     vlib.conformance(o, qc.FAMILY, "QBFTTrace", qc.trace_cfg_of, "c02", rnd, tag="random")
     tr = vlib.split_traces(vlib.read_ndjson(vlib.workdir(pid) + "/trace_random.ndjson"))
     vlib.binding_selftest(o, qc.FAMILY, "QBFTTrace", qc.trace_cfg_of, tr, qc.mutators())
